@@ -15,7 +15,7 @@ RULE = ("subsample / downsample / powerlaw_sample run under the RNG seam: every 
 ASSUMPTIONS = ["uniform variates cannot be enumerated: answered from the boundary grid %r (both ends of [0,1))" % (UNIFORM_GRID,),
                "ordered samples are enumerated when there are at most 720 of them, otherwise every unordered subset in ascending and descending order",
                "'exact' MLE: the log-likelihood is concave in alpha, so the maximiser lies within one grid step of the best of 3001 grid points"]
-REQUIRED_CLASSES = {"all": ["subsample-n-equals-total", "subsample-n-too-large", "zero-count-category", "downsample-identity", "downsample-table", "uniform-near-1", "mle-all-counts-equal-cmin", "many-categories", "sparse-draw"]}
+REQUIRED_CLASSES = {"all": ["subsample-n-equals-total", "subsample-n-too-large", "zero-count-category", "downsample-identity", "downsample-table", "uniform-near-1", "mle-all-counts-equal-cmin", "many-categories", "sparse-draw", "transformation-overflows"]}
 MIN_OUTCOMES = 10
 
 
@@ -48,7 +48,7 @@ def spaces(tier):
     def gen_pl():
         for size in (0, 1, 2, 3):
             for xmin in (1, 2, 3, 4):
-                for alpha in (1.5, 2.0, 3.5):
+                for alpha in (1.5, 2.0, 3.5, 1.01):     # 1.01: so heavy a tail that the documented transformation overflows double range near u = 1
                     yield ("powerlaw_sample", size, xmin, alpha)
 
     def gen_mle():
@@ -61,7 +61,7 @@ def spaces(tier):
         Space("subsample-many-categories", gen_many, "count vectors with 255..300 (thorough: 65537) categories, entries cycling through 0..top: n = total (one possible sub-sample, both orders) and n = 1 (every single item), conservation laws on every RNG answer", per_case=True),
         Space("sparse-draws", gen_sparse, "subsample of n=1 (and n=2 for totals <= 130) items out of 101..151; downsample of 2 out of 65..130 distinct elements of an ndarray/list: every RNG answer, exact uniformity over items / pairs", per_case=True),
         Space("downsample-all-multisets", gen_down, "multisets of 0..4(5) strings over {A,B,AB} as list/ndarray/Series/table/table with duplicated index labels x maxseqs in {None,0..N+1} x every RNG answer"),
-        Space("powerlaw_sample-uniform-grid", gen_pl, "size 0..3 x xmin 1..4 x alpha {1.5,2,3.5} x uniform grid^size"),
+        Space("powerlaw_sample-uniform-grid", gen_pl, "size 0..3 x xmin 1..4 x alpha {1.5,2,3.5,1.01} x uniform grid^size"),
         Space("powerlaw_mle-all-multisets", gen_mle, "multisets of 1..4(5) counts from 1..6 x cmin {1, 2, 1.5, 2.5} (closed forms; exact fit for integer cmin) x 3 methods"),
     ]
 
@@ -308,11 +308,18 @@ def check_case(case, acc):
                 acc.fail("powerlaw_sample/raised-%s" % r.type, case, "samples", r, note="uniforms=%r" % [UNIFORM_GRID[c] for c in choices])
                 return
             vals = np.asarray(r).tolist()
-            if len(vals) != size or any(not (v == math.floor(v)) or v < xmin or math.isinf(v) or v != v for v in vals):
+            # exact value of the documented transformation (IEEE: +inf where the power leaves double range)
+            def transf(u):
+                try:
+                    return float(math.floor((xmin - 0.5) * (1.0 - u) ** (-1.0 / (alpha - 1.0)) + 0.5))
+                except OverflowError:
+                    return float("inf")
+            exp = [transf(UNIFORM_GRID[c]) for c in choices]
+            if any(math.isinf(e) for e in exp):
+                acc.cls("transformation-overflows")
+            if len(vals) != size or any(v != v or v < xmin or (math.isinf(v) and not math.isinf(e)) or (not math.isinf(v) and v != math.floor(v)) for v, e in zip(vals, exp)):
                 acc.fail("powerlaw_sample/bounds", case, "%d integer-valued numbers >= %d" % (size, xmin), vals, note="uniforms=%r" % [UNIFORM_GRID[c] for c in choices])
                 return
-            # exact value of the documented transformation
-            exp = [math.floor((xmin - 0.5) * (1.0 - UNIFORM_GRID[c]) ** (-1.0 / (alpha - 1.0)) + 0.5) for c in choices]
             if vals != exp:
                 acc.fail("powerlaw_sample/transformation", case, exp, vals)
                 return
@@ -328,7 +335,7 @@ def check_case(case, acc):
         for cmin in (1, 2, 2.5, 1.5):
             xs = [x for x in c if x >= cmin]
             n = len(xs)
-            for arr in (c, np.array(c)):
+            for arr in (c, np.array(c), np.array(c, dtype=np.uint8), np.array(c, dtype=np.int16), np.array(c, dtype=np.uint32), tuple(c), pd.Series(c, index=range(3, 3 + len(c)))):
                 for method, shift in (("simple", 0.0), ("continuitycorrection", 0.5)):
                     r = acc.call(pyrepseq.powerlaw_mle_alpha, arr, cmin=cmin, method=method)
                     den = sum(math.log(x / (cmin - shift)) for x in xs)
